@@ -7,6 +7,7 @@ OsLogEvent.from_raw_log_event through theirs (C01, C02, C16).  The block dispatc
 verified step-wise: for an arbitrary block / log record and arbitrary accumulator state, the loop body
 performs exactly the specified update.  The block scanner GreedyRange(Struct(tag, Select(Aligned(8, Prefixed), Prefixed))) is verified by a loop rule over a ghost
 block layout (the real declaration parses each block in place; the repetition stops at the end of the file)."""
+import sys
 import z3
 
 from pyvc.harness import Session
@@ -129,7 +130,7 @@ def verify_chunk_loops(run, tier, wf=True, prefix='C03/parse_v3', only=None):
             state['chunk_i'] = i
             before = len(sink.items)
             try:
-                it.exec_block(stmt.body, fr)
+                it.exec_loop_body(stmt.body, fr)
                 exited = False
             except BreakSig:
                 exited = True
@@ -175,9 +176,11 @@ def verify_chunk_loops(run, tier, wf=True, prefix='C03/parse_v3', only=None):
                 before = len(sink.items)
                 it.assign(stmt.target, SInt(r), fr)
                 try:
-                    it.exec_block(stmt.body, fr)
-                except (BreakSig, ContinueSig):
-                    raise Unsupported('break/continue in the record loop')
+                    it.exec_loop_body(stmt.body, fr)
+                except ContinueSig:
+                    pass          # `continue` ends the step like falling off the end of the body
+                except BreakSig:
+                    raise Unsupported('break in the record loop')
                 new = sink.items[before:]
                 ok = len(new) == 1 and new[0][0] is True and getattr(new[0][1], 'src_start', None) is not None
                 ctx.oblige(prefix + '/records.step-yields-one-event', z3.BoolVal(ok))
@@ -352,9 +355,11 @@ def block_step(it, stmt, fr, blocks, state, prefix):
     finalize = install_accumulator_model(it, fr, p, acc, rec, ctx)
     it.assign(stmt.target, blk, fr)
     try:
-        it.exec_block(stmt.body, fr)
-    except (BreakSig, ContinueSig):
-        raise Unsupported('break/continue in the block loop')
+        it.exec_loop_body(stmt.body, fr)
+    except ContinueSig:
+        pass          # `continue` ends the step like falling off the end of the body
+    except BreakSig:
+        raise Unsupported('break in the block loop')
     finalize()
     # which tag matched on this path?
     tag = blk.fields['tag']
@@ -381,6 +386,9 @@ def block_step(it, stmt, fr, blocks, state, prefix):
         ok = all(k == 'dyld' for k, _, _ in rec) and len(rec) >= 1
         ctx.oblige(prefix + '/blocks.step.TRACEV3_DYLD_MODULES', z3.BoolVal(ok))
     else:
+        import os
+        if os.environ.get('PYVC_DEBUG') and got != want:
+            print('DEBUG block step', matched, got, want, file=sys.stderr)
         ctx.oblige(prefix + '/blocks.step.%s' % (matched or 'other-tag-ignored'), z3.BoolVal(got == want))
         for k, how, src in rec:
             if src is not None:
@@ -522,7 +530,7 @@ def log_step(it, stmt, fr, loglist, state, prefix):
     w0t, w0p = len(T.writes), len(P.writes)
     before = len(sink.items)
     it.assign(stmt.target, raw, fr)
-    it.exec_block(stmt.body, fr)
+    it.exec_loop_body(stmt.body, fr)
     new = sink.items[before:]
     o = state.get('log_obj')
     ok = len(calls) == 1 and calls[0][0] is raw and len(new) == 1 and new[0][1] is o
